@@ -4,6 +4,7 @@ package main
 // R-MERGESHAPE, R-NOPRUNE, R-ARRAYS, R-PATCHWINS, R-CMPSHAPE.
 
 import (
+	"sort"
 	"go/token"
 	"fmt"
 	"go/types"
@@ -366,7 +367,7 @@ func ruleMergeShape(c *Ctx) {
 			bad := ""
 			keep, rem := false, false
 			for bb := range ml.body {
-				if !edgeDominates(ml.testBlk, 1-ml.nonNilSucc, bb) {
+				if !edgeDominates(ml.testBlk, 1-ml.nonNilSucc, bb) && !(ml.val != nil && b.atomOnEveryPath(bb, "nil:"+ml.val.Name(), true)) {
 					continue
 				}
 				for _, ins := range bb.Instrs {
@@ -416,7 +417,169 @@ func (b *Body) underFlagEdge(bb *ssa.BasicBlock, flag *ssa.Parameter, want bool)
 			return true
 		}
 	}
-	return false
+	// not by dominance: decide by walking the feasible paths (a condition tested twice, as in
+	// `case v == nil && !flag: … case v == nil: …`, makes the second arm flag-true without a
+	// dominating edge)
+	return b.atomOnEveryPath(bb, "p:"+flag.Name(), want)
+}
+
+// flagOnEveryPath: on every feasible path from the function entry to bb the bool
+// parameter has been tested with outcome want. Feasibility tracks two kinds of atoms:
+// a bool parameter (or its negation) and nil-tests of an SSA value.
+func (b *Body) atomOnEveryPath(bb *ssa.BasicBlock, flagKey string, want bool) bool {
+	fn := bb.Parent()
+	atom := func(cond ssa.Value) (string, bool, bool) { // key, value-on-true-edge, ok
+		cv, neg := stripNot(cond)
+		if p, ok := cv.(*ssa.Parameter); ok {
+			return "p:" + p.Name(), !neg, true
+		}
+		if x, nnTrue, ok := nilTestOfCond(cond); ok {
+			// key: "x is nil"; on the true edge x is nil iff !nnTrue
+			return "nil:" + x.Name(), !nnTrue, true
+		}
+		return "", false, false
+	}
+	// atomsOn: what is known when cond evaluates to `outcome` — also through the phis that go/ssa
+	// builds for && and || used as values (switch cases)
+	var atomsOn func(cond ssa.Value, outcome bool, depth int) map[string]bool
+	atomsOn = func(cond ssa.Value, outcome bool, depth int) map[string]bool {
+		out := map[string]bool{}
+		if depth > 4 {
+			return out
+		}
+		if k, onTrue, ok := atom(cond); ok {
+			out[k] = onTrue == outcome
+			return out
+		}
+		if u, ok := cond.(*ssa.UnOp); ok && u.Op == token.NOT {
+			return atomsOn(u.X, !outcome, depth+1)
+		}
+		phi, ok := cond.(*ssa.Phi)
+		if !ok || len(phi.Edges) != 2 {
+			return out
+		}
+		for i, e := range phi.Edges {
+			c, isC := boolConst(e)
+			if !isC {
+				continue
+			}
+			other := phi.Edges[1-i]
+			p := phi.Block().Preds[i]
+			piff, ok := p.Instrs[len(p.Instrs)-1].(*ssa.If)
+			if !ok {
+				return out
+			}
+			// the constant edge is taken when the first operand already decides:
+			// a && b: constant false, taken on a's false edge;  a || b: constant true, on a's true edge
+			if !c && outcome {
+				// a && b is true: both true
+				for k, v := range atomsOn(piff.Cond, true, depth+1) {
+					out[k] = v
+				}
+				for k, v := range atomsOn(other, true, depth+1) {
+					out[k] = v
+				}
+			}
+			if c && !outcome {
+				// a || b is false: both false
+				for k, v := range atomsOn(piff.Cond, false, depth+1) {
+					out[k] = v
+				}
+				for k, v := range atomsOn(other, false, depth+1) {
+					out[k] = v
+				}
+			}
+		}
+		return out
+	}
+	type state struct {
+		bb  *ssa.BasicBlock
+		env string
+	}
+	seen := map[state]bool{}
+	ok := true
+	reached := false
+	var walk func(cur, prev *ssa.BasicBlock, env map[string]bool)
+	walk = func(cur, prev *ssa.BasicBlock, env map[string]bool) {
+		if !ok {
+			return
+		}
+		if isLoopHeader(cur) {
+			// values defined in the loop are new objects in the next iteration: forget what was
+			// learnt about them (parameters keep their value)
+			ne := map[string]bool{}
+			for k, v := range env {
+				if strings.HasPrefix(k, "p:") {
+					ne[k] = v
+				}
+			}
+			env = ne
+		}
+		var ks []string
+		for k, v := range env {
+			ks = append(ks, fmt.Sprintf("%s=%v", k, v))
+		}
+		sort.Strings(ks)
+		pn := -1
+		if prev != nil {
+			pn = prev.Index
+		}
+		st := state{cur, fmt.Sprintf("%d|", pn) + strings.Join(ks, ",")}
+		if seen[st] {
+			return
+		}
+		seen[st] = true
+		if cur == bb {
+			reached = true
+			if v, has := env[flagKey]; !has || v != want {
+				ok = false
+			}
+			return
+		}
+		iff, isIf := cur.Instrs[len(cur.Instrs)-1].(*ssa.If)
+		if !isIf {
+			for _, sx := range cur.Succs {
+				walk(sx, cur, env)
+			}
+			return
+		}
+		cond := iff.Cond
+		// a boolean phi of this block has the value of the edge we arrived on
+		if phi, isPhi := cond.(*ssa.Phi); isPhi && phi.Block() == cur && prev != nil {
+			for i, p := range cur.Preds {
+				if p == prev && i < len(phi.Edges) {
+					cond = phi.Edges[i]
+				}
+			}
+		}
+		for si, sx := range cur.Succs {
+			if c, isC := boolConst(cond); isC {
+				if c == (si == 0) {
+					walk(sx, cur, env)
+				}
+				continue
+			}
+			learnt := atomsOn(cond, si == 0, 0)
+			feasible := true
+			ne := map[string]bool{}
+			for k, v := range env {
+				ne[k] = v
+			}
+			for k, v := range learnt {
+				if old, has := ne[k]; has && old != v {
+					feasible = false
+				}
+				ne[k] = v
+			}
+			if feasible {
+				walk(sx, cur, ne)
+			}
+		}
+	}
+	if len(fn.Blocks) > 0 {
+		walk(fn.Blocks[0], nil, map[string]bool{})
+	}
+	return ok && reached
 }
 
 func ruleNoPrune(c *Ctx) {
@@ -1401,6 +1564,10 @@ func (b *Body) matchPairing(l *Ledger) {
 				v = x.Tuple
 			case *ssa.Lookup:
 				v = x.X
+			case *ssa.Next:
+				v = x.Iter
+			case *ssa.Range:
+				v = x.X
 			case *ssa.UnOp:
 				v = x.X
 			case *ssa.IndexAddr:
@@ -1479,6 +1646,26 @@ func (b *Body) matchPairing(l *Ledger) {
 						bad = "no length comparison of the two slices that answers false dominates the loop: a proper prefix would match (or the index runs out of range)"
 					} else if h := innermostLoopHeader(call.Block()); h == nil || !(isRangeIndex(h, iax.Index, iax.X) || isRangeIndex(h, iax.Index, iay.X)) {
 						bad = "the index is not that of a range over the whole slice: some elements are never compared"
+					}
+				case okex && okey && (isLookupExtract(ex) != isLookupExtract(ey)) && (isRangeValue(ex) || isRangeValue(ey)):
+					// one side is the value of the member being ranged over, the other the lookup
+					// of the same key in the other object
+					lkE, rvE := ex, ey
+					if isLookupExtract(ey) {
+						lkE, rvE = ey, ex
+					}
+					lk := lkE.Tuple.(*ssa.Lookup)
+					nx := rvE.Tuple.(*ssa.Next)
+					rg, _ := nx.Iter.(*ssa.Range)
+					form = "member"
+					kx, isK := lk.Index.(*ssa.Extract)
+					switch {
+					case lkE.Index != 0 || rg == nil:
+						bad = "operands are not a member value and a member lookup"
+					case !isK || kx.Tuple != ssa.Value(nx) || kx.Index != 1:
+						bad = "the other side is not looked up under the key of the member being compared"
+					case !lenCheck(call.Block(), lk.X, rg.X):
+						bad = "no size comparison of the two objects that answers false dominates the loop: an object with additional members would match"
 					}
 				case okex && okey && isLookupExtract(ex) && isLookupExtract(ey):
 					lx, ok1 := ex.Tuple.(*ssa.Lookup)
@@ -1625,4 +1812,10 @@ func (b *Body) matchPairing(l *Ledger) {
 func isLookupExtract(e *ssa.Extract) bool {
 	_, ok := e.Tuple.(*ssa.Lookup)
 	return ok
+}
+
+
+func isRangeValue(e *ssa.Extract) bool {
+	_, ok := e.Tuple.(*ssa.Next)
+	return ok && e.Index == 2
 }
